@@ -81,6 +81,9 @@ type enumOpts struct {
 	swaps       int
 	idxPerTable int
 	metaFlip    int // every n-th bit of the sidecar
+	metaTrunc   int // every n-th truncation length of the sidecar
+	light       bool // fewer hostile values per field / length prefix
+	lenEvery    int  // every n-th length-prefixed region / TOC entry gets the length corruptions
 }
 
 // enumerate lists the corruptions of one subject.
@@ -209,6 +212,9 @@ func enumerate(s *subjectSpec, seed uint64, o enumOpts, r *rand.Rand) []mutation
 				v = append(v, f.Val-1)
 			}
 		}
+		if o.light {
+			v = []uint32{0, 1<<32 - 1, f.Val + 1}
+		}
 		return v
 	}
 	perTable := map[string]int{}
@@ -271,9 +277,18 @@ func enumerate(s *subjectSpec, seed uint64, o enumOpts, r *rand.Rand) []mutation
 
 	// 6. length prefixes / varints set to huge values
 	huge := []uint64{1 << 31, 1<<32 - 1, 1 << 62, 1<<64 - 1, 1 << 20, 1 << 28}
-	for _, reg := range l.sizedRegions() {
+	if o.light {
+		huge = []uint64{1<<32 - 1, 1<<64 - 1}
+	}
+	for ri, reg := range l.sizedRegions() {
 		_, m := binary.Uvarint(orig[reg.R.Off:reg.R.end()])
 		if m <= 0 {
+			continue
+		}
+		if o.light && strings.Contains(reg.Name, "[") && ri%5 != 0 {
+			continue // per-document lists: a sample
+		}
+		if ri%max(1, o.lenEvery) != 0 {
 			continue
 		}
 		for _, v := range huge {
@@ -281,7 +296,7 @@ func enumerate(s *subjectSpec, seed uint64, o enumOpts, r *rand.Rand) []mutation
 			// (a) the file stays well-formed: TOC and tables are patched around the longer prefix
 			add(mutation{ID: fmt.Sprintf("len/%s=%d", reg.Name, v), Kind: "length-prefix", Whole: l.resize(orig, reg.R.Off, m, enc)})
 			// (b) in place, clobbering what follows
-			if reg.R.Off+len(enc) <= len(orig) {
+			if reg.R.Off+len(enc) <= len(orig) && !(o.light && v != huge[0]) {
 				add(mutation{ID: fmt.Sprintf("len-inplace/%s=%d", reg.Name, v), Kind: "length-prefix", Trunc: none, Edits: []edit{{reg.R.Off, len(enc), enc}}})
 			}
 		}
@@ -302,17 +317,37 @@ func enumerate(s *subjectSpec, seed uint64, o enumOpts, r *rand.Rand) []mutation
 			if it.Sz == 0 || !(i < 2 || i >= n-2 || i%max(1, n/max(1, o.idxPerTable)) == 0) {
 				continue
 			}
-			for _, v := range huge[:4] {
+			for _, v := range huge[:2] {
 				add(mutation{ID: fmt.Sprintf("len/%s[%d]=%d", tag, i, v), Kind: "length-prefix", Whole: l.resize(orig, it.Off, 0, uvar(v))})
 			}
 			last := it.end() - 1
 			add(mutation{ID: fmt.Sprintf("len/%s[%d]/unterminated", tag, i), Kind: "length-prefix", Trunc: none, Edits: []edit{{last, 1, []byte{orig[last] | 0x80}}}})
 		}
 	}
+	// the posting lists of the trigrams the battery searches for, in every tier
+	if nt, ps := l.entry("ngramText"), l.entry("postings"); nt != nil && ps != nil {
+		for _, w := range []string{"abc", "bca", "Abc"} {
+			code := uint64(w[0])<<42 | uint64(w[1])<<21 | uint64(w[2])
+			for i := 0; i*8+8 <= nt.Data.Sz && i < len(ps.Items); i++ {
+				if binary.BigEndian.Uint64(orig[nt.Data.Off+8*i:]) != code || ps.Items[i].Sz == 0 {
+					continue
+				}
+				it := ps.Items[i]
+				last := it.end() - 1
+				add(mutation{ID: fmt.Sprintf("len/postings(%s)/unterminated", w), Kind: "length-prefix", Trunc: none, Edits: []edit{{last, 1, []byte{orig[last] | 0x80}}}})
+				add(mutation{ID: fmt.Sprintf("len/postings(%s)=2^32-1", w), Kind: "length-prefix", Whole: l.resize(orig, it.Off, 0, uvar(1<<32-1))})
+				add(mutation{ID: fmt.Sprintf("len/postings(%s)/overlong", w), Kind: "length-prefix", Whole: l.resize(orig, it.Off, 0, bytes.Repeat([]byte{0xff}, 11))})
+			}
+		}
+	}
+
 	// the TOC's own varints: tag lengths and section kinds
-	for _, e := range l.Entries {
+	for ei, e := range l.Entries {
+		if o.light && ei%4 != 0 {
+			continue
+		}
 		_, m := binary.Uvarint(orig[e.TagPos:])
-		for _, v := range huge[:3] {
+		for _, v := range huge[:2] {
 			add(mutation{ID: fmt.Sprintf("len/toc-taglen/%s=%d", e.Tag, v), Kind: "length-prefix", Whole: l.resize(orig, e.TagPos, m, uvar(v))})
 		}
 		kp := e.TagPos + m + len(e.Tag)
@@ -330,7 +365,7 @@ func enumerate(s *subjectSpec, seed uint64, o enumOpts, r *rand.Rand) []mutation
 			add(mutation{ID: "meta/" + id, Kind: "meta-sidecar", Trunc: none, Meta: append([]byte{}, b...), HasMeta: true})
 		}
 		mm("valid", s.Meta)
-		for n := 0; n < len(s.Meta); n++ {
+		for n := 0; n < len(s.Meta); n += max(1, o.metaTrunc) {
 			mm(fmt.Sprintf("trunc/%d", n), s.Meta[:n])
 		}
 		k := 0
@@ -351,7 +386,7 @@ func enumerate(s *subjectSpec, seed uint64, o enumOpts, r *rand.Rand) []mutation
 			one = s.Meta[1 : len(s.Meta)-1] // possibly several objects; good enough as an element list
 		}
 		for i, v := range []string{"null", "[]", "[null]", "{}", "[{}]", "[{},{}]", "[null,null]", "0", `"x"`, "true", "[[]]", "[" + string(one) + "," + string(one) + "]", "[" + string(one) + ",null]", "[null," + string(one) + "]",
-			string(one), "[" + string(one) + "]", " ", "\n", "\x00", "\xff\xfe", strings.Repeat("[", 10000), strings.Repeat("[", 100000) + strings.Repeat("]", 100000), strings.Repeat(`{"SubRepoMap":{"a":`, 2000) + "null" + strings.Repeat("}}", 2000),
+			string(one), "[" + string(one) + "]", " ", "\n", "\x00", "\xff\xfe", strings.Repeat("[", 10000), strings.Repeat("[", 100000) + strings.Repeat("]", 100000), strings.Repeat(`{"SubRepoMap":{"a":`, 400) + "null" + strings.Repeat("}}", 400),
 			`{"ID":4294967296}`, `{"ID":-1}`, `{"ID":1e99}`, `{"Name":null,"Branches":null}`, `{"Branches":[{"Name":"HEAD"}],"ID":"7"}`, `[{"Branches":null,"SubRepoMap":{"":null}}]`, `{"SubRepoMap":{"sub":null}}`, `[{"SubRepoMap":{"sub":null}}]`,
 			`{"Name":"x","Branches":[` + strings.Repeat(`{"Name":"b","Version":"v"},`, 70) + `{"Name":"z","Version":"v"}]}`, `{"RawConfig":{"priority":"1e999"}}`, `{"LatestCommitDate":"not a date"}`, `{"Metadata":{"k":null}}`, `{"Rank":65536}`, `{"TenantID":-1}`} {
 			mm(fmt.Sprintf("special/%d", i), []byte(v))
